@@ -2,7 +2,7 @@
    and nat stay the extracted inductive datatypes. *)
 From Coq Require Extraction.
 From Coq Require Import ExtrOcamlBasic.
-From StrettoModel Require Import Base Metrics Sketch Bloom TinyLFU Policy Ttl Store Cache.
+From StrettoModel Require Import Base Metrics Sketch Bloom TinyLFU Policy Ttl Store Cache Keys.
 Extraction Language OCaml.
 Extraction "model.ml"
   aget adel aset asort sort_N wrap64 u64_of_i64
@@ -12,4 +12,5 @@ Extraction "model.ml"
   tl_new tl_estimate tl_increment tl_increments tl_clear
   sl_new sl_update sl_set_max sl_clear pol_remove pol_add pol_in_range
   m_add m_adds metrics_zero m_get
-  cinit cstep crun continue_client.
+  cinit cstep crun continue_client
+  transparent_index transparent_conflict validate.
